@@ -142,7 +142,18 @@ def execute(plan):
                     log.add("get")
                 elif o == "sibling":
                     g2 = gen.get_similar_fading_generator()
+                    phi2, psi2 = np.array(g2._phi_l, copy=True), np.array(g2._psi_l, copy=True)
                     g2.generate_more_samples(op["n"])
+                    s2 = g2.get_samples()
+                    # the sibling is a Jakes generator of its own: its samples follow the model for ITS phases (it starts at sample 1)
+                    if np.shape(s2) != base + (op["n"],):
+                        viol("shape", step, "similar generator returned shape %s for a request of %d" % (np.shape(s2), op["n"]))
+                        break
+                    if np.shape(phi2) == np.shape(phi):
+                        e2 = float(np.max(np.abs(np.asarray(s2) - model_samples(phi2, psi2, Fd, Ts, L, 1, op["n"]))))
+                        if not (e2 <= tol):
+                            viol("value", step, "samples of a similar generator do not follow the model for its own phases: |h - model| = %.3g > %.3g" % (e2, tol), kind="sibling")
+                            break
                     g2.skip_samples_for_next_generation(op["n"])
                     if np.shape(g2._phi_l) == np.shape(phi) and phi.size > 1 and np.array_equal(g2._phi_l, phi):
                         viol("phases", step, "a similar generator shares this generator's random phases")
